@@ -4439,16 +4439,15 @@ EmitModVSib:
       if (ASMJIT_UNLIKELY(mod == 0xFF))
         goto InvalidAddress;
 
-      mod += op_reg << 3;
       if (rel_offset == 0 && mod != 0x06) {
-        writer.emit8(mod);
+        writer.emit8(mod + (op_reg << 3));
       }
       else if (Support::is_int_n<8>(rel_offset)) {
-        writer.emit8(mod + 0x40);
+        writer.emit8(mod + (op_reg << 3) + 0x40);
         writer.emit8(uint32_t(rel_offset));
       }
       else {
-        writer.emit8(mod + 0x80);
+        writer.emit8(mod + (op_reg << 3) + 0x80);
         writer.emit16u_le(uint32_t(rel_offset));
       }
     }
